@@ -2,6 +2,8 @@
 
 package raft
 
+import "time"
+
 // One iteration of leaderLoop with exactly one channel ready.
 
 // vShapeCommit fixes commit/applied positions of a shaped server (concrete
@@ -278,4 +280,80 @@ func vh_gate() {
 	}
 	vAssert(len(r.leaderState.replState) <= len(post.latest), "C07.append.replication-stopped-for-removed")
 	vReach("gate.end")
+}
+
+// vh_lease_loop: the lease case of leaderLoop must run when the lease timer is
+// due, whatever else is ready at the same time (client traffic must not starve
+// it). The leader has lost contact with its only peer.
+func vh_lease_loop() {
+	r, env := vNewRaft("L", vRaftOpts{n: 2, w: 3, shaped: true})
+	vAssume(r.lastSnapshotIndex == vBase() && env.logs.low == vBase()+1 && env.logs.high == vBase()+1) // one log shape: the case does not depend on it
+	vAssume(vInvBasic(r, env))
+	vAssume(vInvLog(r, env, 3))
+	servers := r.configurations.latest.Servers
+	vAssume(servers[0].Suffrage == Voter && servers[1].Suffrage == Voter)
+	vMakeLeader(r, "L", 0)
+	lastIndex := r.getLastIndex()
+	vAssume(lastIndex >= vBase() && lastIndex+2 <= vBase()+3)
+	lease := r.conf.Load().(Config).LeaderLeaseTimeout
+	t0 := time.Now()
+	s := r.leaderState.replState[servers[1].ID]
+	vAssume(t0.Sub(s.lastContact) > lease) // contact with the only other voter is older than the lease
+	// client traffic is queued at the same time
+	k := vChoose("applies", 0, 2)
+	for i := 0; i < k; i++ {
+		r.applyCh <- vArbFuture("f")
+	}
+	vSpawnPolicy(false)
+	vTimerMode(3) // the lease timer armed by leaderLoop is due; timers armed later are not
+	vRunUntilBlocked(r.leaderLoop)
+	vAssert(r.getState() == Follower, "C13.loop.due-lease-check-runs-despite-client-traffic")
+	vReach("leaseloop.end")
+}
+
+// vh_leadership_transfer: the leadershipTransferCh case of leaderLoop with its
+// helper goroutines run to quiescence; every timer that is armed elapses.
+// Whatever the target does (acknowledges TimeoutNow and never takes over, RPC
+// fails), the future resolves and the transfer flag is cleared. C17.LOOP-ANSWERS.
+func vh_leadership_transfer() {
+	r, env := vNewRaft("L", vRaftOpts{n: 2, w: 3, shaped: true})
+	vAssume(r.lastSnapshotIndex == vBase() && env.logs.low == vBase()+1 && env.logs.high == vBase()+1)
+	vAssume(vInvBasic(r, env))
+	vAssume(vInvLog(r, env, 3))
+	servers := r.configurations.latest.Servers
+	vAssume(servers[0].Suffrage == Voter && servers[1].Suffrage == Voter)
+	vMakeLeader(r, "L", 0)
+	s := r.leaderState.replState[servers[1].ID]
+	s.nextIndex = r.getLastIndex() + 1 // the target is caught up
+	env.trans.timeoutNowFails = vChoose("timeoutNowFails", 0, 1) == 1
+	fut := &leadershipTransferFuture{}
+	fut.init()
+	if vChoose("named", 0, 1) == 1 {
+		id, addr := servers[1].ID, servers[1].Address
+		fut.ID, fut.Address = &id, &addr
+	}
+	r.leadershipTransferCh <- fut
+	vSpawnPolicy(true)
+	vTimerMode(0)                 // the lease timer of the loop itself stays quiet
+	vTimerFor("leaderLoop$", vChoose("helperTimers", 0, 1)*3+1) // helper timers elapse at once (1) or only once nothing else can happen (4)
+	vAssertNoPanic("C17.transfer.no-panic")
+	vRunUntilBlocked(r.leaderLoop)
+	done, err := vFutureErr(&fut.deferError)
+	vAssert(done, "C17.transfer.future-resolves")
+	vAssert(!r.getLeadershipTransferInProgress(), "C17.transfer.flag-cleared")
+	if done && err == nil {
+		vCover("transfer.reported-success")
+		// success is only reported when this server actually left the leader loop
+		vAssert(r.getState() != Leader, "C17.transfer.success-only-after-stepdown")
+	} else {
+		vCover("transfer.reported-error")
+	}
+	if env.trans.timeoutNowFails {
+		vAssert(done && err != nil, "C17.transfer.rpc-failure-reported")
+	}
+	vAssert(len(env.trans.timeoutNowTo) <= 1, "C17.transfer.one-timeout-now")
+	for _, id := range env.trans.timeoutNowTo {
+		vAssert(id == servers[1].ID, "C17.transfer.timeout-now-to-voter-peer")
+	}
+	vReach("transfer.end")
 }
